@@ -103,7 +103,9 @@ def run(chk):
         # (the printer driver also tries to compile and appends the error: here a declaration that does not compile is the finding)
         note = note.split("\nERROR:")[0]
         if note:
-            raw.append({"files": {"foo/v1/foo.j5s": note}, "focus": "foo/v1/foo.j5s", "cls": "entity", "valid": True, "nolint": True})
+            # (generated files are linked in path order: "wallet" sorts after the service/ and topic/ sub-packages, "foo" before)
+            fn = "foo/v1/%s.j5s" % ("foo" if nent % 2 else "wallet")
+            raw.append({"files": {fn: note}, "focus": fn, "cls": "entity", "valid": True, "nolint": True})
             nent += 1
     chk.extra_cov["entity_declarations"] = nent
     res2 = chk.replay("lang-compile", raw, "raw", workers=W, timeout="30s")
